@@ -299,9 +299,10 @@ struct Spec {
 	std::vector<double> grid;       // PROFILE grid, CXX data, BUFFER of doubles
 	std::string bytes; bool dblbuf; // BUFFER / ARGS raw content
 	uint32_t len; double a, b, c;   // direct constructors
+	bool probe;                     // TEXT of integer literals: typed conversions of the current element and bare advance are part of the alphabet
 	int step, rtype, argkind;       // CXX step; read type; ITERARG: 0 linear 1 factor 2 range
 	Den den;
-	Spec() : fam(F_CREATE), null_text(false), null_sep(true), null_arr(false), untyped(false), dblbuf(false), len(0), a(0), b(0), c(0), step(1), rtype('d'), argkind(0) {}
+	Spec() : fam(F_CREATE), null_text(false), null_sep(true), null_arr(false), untyped(false), dblbuf(false), len(0), a(0), b(0), c(0), probe(false), step(1), rtype('d'), argkind(0) {}
 	std::string label() const
 	{
 		auto q = [](const std::string &s, bool null) { return null ? std::string("NULL") : "\"" + s + "\""; };
@@ -442,8 +443,9 @@ struct Inst {
 };
 
 // ------------------------------------------------------------------ protocol model and oracle
-enum Op { READ, ADV, RESET, CLONE, CONSD, CONSU, STEP, NOPS };
-static const char *opn[] = { "value", "advance", "reset", "clone", "consume(d)", "consume(u)", "value+advance" };
+enum Op { READ, ADV, RESET, CLONE, CONSD, CONSU, STEP, PRB_I, PRB_Y, PRB_Q, PRB_D, PRB_K, NOPS };
+static const int prbtype[] = { 'i', 'y', 'q', 'd', 'k' };
+static const char *opn[] = { "value", "advance", "reset", "clone", "consume(d)", "consume(u)", "value+advance", "convert(i)", "convert(y)", "convert(q)", "convert(d)", "convert(k)" };
 static const uint64_t BIG = ~(uint64_t) 0;
 static const size_t WALKCAP = 40;
 
@@ -454,8 +456,8 @@ struct Walk {                 // result of the documented loop on a fresh instan
 	Walk() : n(0), tail_error(false) {}
 };
 struct Model {
-	uint64_t p, base; bool dirty; int ctx;   // ctx: 0 fresh, 1 after reset, 2 in clone; base: position a reset returns to
-	Model() : p(0), base(0), dirty(false), ctx(0) {}
+	uint64_t p, base; bool dirty, armed; int ctx;   // armed (text): the current element was converted successfully, which is what delimits it for a bare advance; ctx: 0 fresh, 1 after reset, 2 in clone; base: position a reset returns to
+	Model() : p(0), base(0), dirty(false), armed(false), ctx(0) {}
 };
 
 struct Counters { uint64_t nontrivial, refused, accepted, spurious, closed, bounded, clone_unsupported, reset_refused, adv0_past_end, nonfinite_skip, lossy, unstable; };
@@ -478,10 +480,11 @@ struct Src {
 	bool ops_enabled(int op) const
 	{
 		switch (sp.fam) {
-		case F_TEXT: return op == READ || op == STEP || op == RESET || op == CLONE || (op == CONSD && sp.rtype == 'd') || (op == CONSU && sp.rtype == 'd' && sp.text.find_first_not_of("1 ,") == std::string::npos);   // other numerals parse differently as unsigned
-		case F_BUFFER: case F_ARGS: return op == READ || op == ADV || op == RESET || op == CLONE;
+		case F_TEXT: if (sp.probe && (op == ADV || op >= PRB_I)) return true;
+			return op == READ || op == STEP || op == RESET || op == CLONE || (op == CONSD && sp.rtype == 'd') || (op == CONSU && sp.rtype == 'd' && sp.text.find_first_not_of("1 ,") == std::string::npos);   // other numerals parse differently as unsigned
+		case F_BUFFER: case F_ARGS: return op == READ || op == ADV || op == RESET || op == CLONE || op >= PRB_I;
 		case F_CXXD: case F_CXXI: return op == READ || op == ADV || op == RESET || op == CONSD || op == CONSU;
-		default: return op != STEP;
+		default: return op != STEP && op != PRB_K;
 		}
 	}
 	// one operation on implementation + model; false = violation reported (bad set) or op refused by the engine
@@ -503,9 +506,40 @@ struct Src {
 				if (!m.dirty && !(o == w.ref[m.p])) { viol("value|" + fam + "|" + where + "|differs-from-walk", hist, fmt("element %llu reads %s, the straight walk gave %s", (unsigned long long) m.p, o.text().c_str(), w.ref[m.p].text().c_str())); return false; }
 			}
 			else if (o.data() || o.k == Obs::NODATA) { viol("value|" + fam + "|" + where + "|not-reported", hist, "reading past the end is not reported: " + o.text()); return false; }
+			if (inrange) m.armed = true;
 			if (op == READ) return true;
 		}
+		if (op >= PRB_I && op < NOPS) {
+			// typed conversion of the current element without advancing; a refused conversion must change nothing (checked by what follows)
+			int type = prbtype[op - PRB_I];
+			unsigned char buf[16]; memset(buf, 0xA5, sizeof buf);
+			const value *v; int ret = 0;
+			{ Lib scope; v = in.it->value(); if (v) ret = mpt_value_convert(v, type, buf); }
+			bool stored = false; for (unsigned char c : buf) if (c != 0xA5) stored = true;
+			if (verbose) r.note("  value()%s convert('%c') -> %d%s", v ? "" : " = NULL,", type, ret, stored ? ", stored" : "");
+			if (asan_error()) { viol("convert|" + fam + "|" + where + "|memory", hist, fmt("converting the current element to '%c' touches memory outside the object (AddressSanitizer)", type)); return false; }
+			if (!v) { if (inrange) { viol("value|" + fam + "|" + where + "|missing", hist, fmt("element %llu of the walk has no value", (unsigned long long) m.p)); return false; } return true; }
+			if (!inrange) { if (ret >= 0 && sp.fam == F_TEXT) { viol("convert|" + fam + "|" + where + "|not-reported", hist, fmt("converting past the end to '%c' returned %d", type, ret)); return false; } return true; }
+			if (ret < 0) { r.count(fmt("convert_refused:%c", type)); return true; }
+			r.count(fmt("convert_accepted:%c", type));
+			if (sp.fam == F_TEXT && sp.probe) {
+				if (!stored) { viol("convert|" + fam + "|" + where + "|success-without-value", hist, fmt("conversion to '%c' returned %d but stored nothing", type, ret)); return false; }
+				long long want = (long long) w.ref[m.p].d, got = 0; bool cmp = true;
+				switch (type) {
+				case 'i': { int32_t x; memcpy(&x, buf, 4); got = x; cmp = want >= INT32_MIN && want <= INT32_MAX; break; }
+				case 'y': { uint8_t x; memcpy(&x, buf, 1); got = x; cmp = want >= 0 && want <= 255; break; }
+				case 'q': { uint16_t x; memcpy(&x, buf, 2); got = x; cmp = want >= 0 && want <= 65535; break; }
+				case 'd': { double x; memcpy(&x, buf, 8); got = (long long) x; break; }
+				default: { const char *k; memcpy(&k, buf, sizeof k); got = strtoll(k, 0, 10); break; }
+				}
+				if (!cmp) r.count("convert_out_of_range_accepted(not flagged, C07)");
+				else if (got != want) { viol("convert|" + fam + "|" + where + "|wrong-value", hist, fmt("conversion to '%c' gave %lld, the element is %lld", type, got, want)); return false; }
+				m.armed = true;
+			}
+			return true;
+		}
 		if (op == ADV || op == STEP) {
+			if (op == ADV && sp.fam == F_TEXT && inrange && !m.armed) return false;   // a bare advance on unread text consumes the rest by design: not part of the alphabet
 			int a; { Lib scope; a = in.it->advance(); }
 			if (verbose) r.note("  advance() -> %d", a);
 			if (asan_error()) { viol("advance|" + fam + "|" + where + "|memory", hist, "advance touches memory outside the object (AddressSanitizer)"); return false; }
@@ -517,12 +551,12 @@ struct Src {
 				if (w.tail_error) { if (a >= 0) { viol("advance|" + fam + "|" + where + "|tail-error-lost", hist, fmt("the walk reported an error behind the last element, now advance returned %d", a)); return false; } m.dirty = true; }
 				else if (a > 0) { viol("advance|" + fam + "|" + where + "|reports-more", hist, fmt("advance from the last element returned %d (more elements)", a)); return false; }
 				else if (a < 0) { viol("advance|" + fam + "|" + where + "|error-instead-of-end", hist, fmt("advance from the last element returned error %d", a)); return false; }
-				else ++m.p;
+				else { ++m.p; m.armed = false; }
 			}
 			else {
 				if (a == 0) { viol("advance|" + fam + "|" + where + "|early-end", hist, fmt("advance at element %llu of %s reported the end", (unsigned long long) m.p, w.n == BIG ? "many" : std::to_string(w.n).c_str())); return false; }
 				if (a < 0) { viol("advance|" + fam + "|" + where + "|refused-with-elements-left", hist, fmt("advance at element %llu returned error %d", (unsigned long long) m.p, a)); return false; }
-				++m.p;
+				++m.p; m.armed = false;
 			}
 			return true;
 		}
@@ -531,7 +565,7 @@ struct Src {
 			if (verbose) r.note("  reset() -> %d", ret);
 			if (asan_error()) { viol("reset|" + fam + "|" + where + "|memory", hist, "reset touches memory outside the object (AddressSanitizer)"); return false; }
 			if (ret < 0) { ++C.reset_refused; m.ctx = 3; return true; }   // reported failure: position and elements must be unchanged (checked by later reads)
-			m.p = m.base; m.dirty = false; m.ctx = 1;
+			m.p = m.base; m.dirty = false; m.armed = false; m.ctx = 1;
 			return true;
 		}
 		if (op == CLONE) {
@@ -540,7 +574,7 @@ struct Src {
 			if (asan_error()) { viol("clone|" + fam + "|" + where + "|memory", hist, "clone touches memory outside the objects (AddressSanitizer)"); return false; }
 			if (c == 0) { ++C.clone_unsupported; return false; }
 			if (c < 0) { viol("clone|" + fam + "|" + where + "|no-iterator", hist, "the clone does not offer the iterator interface"); return false; }
-			m.ctx = 2;
+			m.ctx = 2; m.armed = false;
 			if (sp.fam == F_TEXT) m.base = m.p;   // a text clone is a new iterator over the remaining text: its reset returns to the cloning point
 			return true;
 		}
@@ -569,7 +603,7 @@ struct Src {
 			}
 		}
 		if (last && w.tail_error) { viol("consume|" + fam + "|" + where + "|tail-error-lost", hist, fmt("the advance behind the last element fails, consume returned %d", ret)); return false; }
-		++m.p;
+		++m.p; m.armed = false;
 		return true;
 	}
 };
@@ -721,7 +755,7 @@ static void process(Run &r, const Spec &sp, uint64_t idx, const Vec *replay)
 	struct Node { Vec hist; Hash128 h; };
 	std::unordered_set<Hash128, Hash128H> seen;
 	std::deque<Node> frontier;
-	auto canon = [&](Inst &in, const Model &m) { return hash128(fmt("%llu|%llu|%d|", (unsigned long long) m.p, (unsigned long long) m.base, (int) m.dirty) + in.image()); };
+	auto canon = [&](Inst &in, const Model &m) { return hash128(fmt("%llu|%llu|%d%d|", (unsigned long long) m.p, (unsigned long long) m.base, (int) m.dirty, (int) m.armed) + in.image()); };
 	{
 		Inst in; Model m;
 		if (!create_checked(s, in, false)) { s.viol("create|" + s.fam + "|" + sp.den.why + "|unstable", Vec(), "a second creation of the same source fails"); in.destroy(); return; }
@@ -1023,6 +1057,15 @@ static void fam_text(Tier, std::vector<Spec> &v)
 		Spec s; s.fam = F_TEXT; s.rtype = 'k'; s.null_sep = sp == 0; s.sep = " ";
 		for (size_t i = 0; i < q.size(); ++i) { s.text += (i ? " " : "") + q[i]; s.den.list.push_back(Obs::str(q[i])); }
 		Den &d = s.den; d.cls = Den::WELL; d.kind = Den::LIST; d.fam = "text"; d.why = "words"; d.have_n = true; d.nlo = d.nhi = q.size(); d.plain = true;
+		v.push_back(s);
+	}
+	// integer literals that fit some target types and not others: typed conversions of the current element + bare advance
+	sq.clear(); seqs({ "-1", "300", "70000", "2" }, 3, sq, false);
+	sq.push_back({ "-1", "2", "300", "4", "70000", "6" });
+	for (auto &q : sq) {
+		Spec s; s.fam = F_TEXT; s.rtype = 'd'; s.probe = true;
+		for (size_t i = 0; i < q.size(); ++i) { s.text += (i ? " " : "") + q[i]; s.den.list.push_back(Obs::dbl(strtod(q[i].c_str(), 0))); }
+		Den &d = s.den; d.cls = Den::WELL; d.kind = Den::LIST; d.fam = "text"; d.why = "integers"; d.have_n = true; d.nlo = d.nhi = q.size(); d.plain = true;
 		v.push_back(s);
 	}
 	for (const char *x : { "a b", "abc", "1 2 3" }) {
